@@ -6,8 +6,16 @@ package pdf
 
 import (
 	"bytes"
+	"compress/lzw"
+	"compress/zlib"
 	"fmt"
 	"io"
+	"maps"
+	"math/rand"
+	"os"
+	"regexp"
+	"sort"
+	"strconv"
 	"testing"
 )
 
@@ -91,11 +99,12 @@ type c11Iso struct {
 	bwd      map[Reference]Reference
 	desc     string
 	fails    int
+	quiet    int // show this many failures fewer than the usual 8
 }
 
 func (m *c11Iso) fail(key, format string, a ...any) {
 	m.fails++
-	if m.fails <= 8 {
+	if m.fails <= 8-m.quiet {
 		m.t.Errorf("B2-FAIL %s %s: %s", key, m.desc, fmt.Sprintf(format, a...))
 	}
 }
@@ -178,28 +187,20 @@ func (m *c11Iso) cmp(path string, a, b Object, depth int) {
 		}
 		// the copier may inline references in /Filter and /DecodeParms at the top and at the
 		// array-element level (documented); compare those entries after resolving both sides
-		inline := func(g Getter, v Object) Object {
-			if r, ok := v.(Reference); ok {
-				v, _ = g.Get(r, true)
-			}
-			if arr, ok := v.(Array); ok {
-				out := make(Array, len(arr))
-				for i, e := range arr {
-					if r, ok := e.(Reference); ok {
-						e, _ = g.Get(r, true)
-					}
-					out[i] = e
-				}
-				return out
-			}
-			return v
-		}
+		inline := c11Resolved
 		for _, k := range []Name{"Filter", "DecodeParms"} {
 			if v, ok := dx[k]; ok {
 				dx[k] = inline(m.src, v)
 			}
 			if v, ok := dy[k]; ok {
 				dy[k] = inline(m.dst, v)
+			}
+			// an entry which resolves to null is the same as no entry (7.3.7)
+			if dx[k] == nil {
+				delete(dx, k)
+			}
+			if dy[k] == nil {
+				delete(dy, k)
 			}
 		}
 		m.cmp(path+"<dict>", dx, dy, depth+1)
@@ -340,4 +341,1083 @@ func TestB2C11Copier(t *testing.T) {
 		}
 	}
 	t.Logf("B2-CASES %d", cases)
+}
+
+// ---------------------------------------------------------------------------------------
+// Second part: streams.  The quantifier of C11 ranges over streams with filters and
+// indirect /Length, /Filter and /DecodeParms, and over target files; the graph above holds
+// four small streams written by the library's own writer into a sequential target.  Here
+// the source streams are assembled by the harness: the payload is known, the encoded form
+// is produced by encoders that do not belong to the library (compress/zlib, compress/lzw,
+// and ASCIIHex, ASCII85, RunLength and the PNG/TIFF predictors written out below), and the
+// unencrypted source file is written byte by byte.  After the copy, every stream must
+// (1) decode to the payload, (2) carry /Filter and /DecodeParms entries that resolve to the
+// filter chain of the case, entry by entry (a null entry of /DecodeParms is the parameter
+// of the filter at the same index, PDF 7.3.8.2 table 5), (3) occupy in the target file
+// exactly /Length bytes between "stream" EOL and EOL "endstream" (PDF 7.3.8.1), and (4) be
+// isomorphic to the source by the lock-step walk above.
+
+func c11Env() (thorough bool, seed int64) {
+	thorough = os.Getenv("VERIF_TIER") == "thorough"
+	seed = 1
+	fmt.Sscanf(os.Getenv("VERIF_SEED"), "%d", &seed)
+	return thorough, seed
+}
+
+// c11MemFile is a seekable in-memory file (what os.File offers to the Writer).
+type c11MemFile struct {
+	data []byte
+	pos  int64
+}
+
+func (f *c11MemFile) Write(p []byte) (int, error) {
+	end := f.pos + int64(len(p))
+	if end > int64(len(f.data)) {
+		f.data = append(f.data, make([]byte, end-int64(len(f.data)))...)
+	}
+	copy(f.data[f.pos:], p)
+	f.pos = end
+	return len(p), nil
+}
+
+func (f *c11MemFile) Read(p []byte) (int, error) {
+	if f.pos >= int64(len(f.data)) {
+		return 0, io.EOF
+	}
+	n := copy(p, f.data[f.pos:])
+	f.pos += int64(n)
+	return n, nil
+}
+
+func (f *c11MemFile) ReadAt(p []byte, off int64) (int, error) {
+	if off >= int64(len(f.data)) {
+		return 0, io.EOF
+	}
+	n := copy(p, f.data[off:])
+	if n < len(p) {
+		return n, io.EOF
+	}
+	return n, nil
+}
+
+func (f *c11MemFile) Seek(off int64, whence int) (int64, error) {
+	switch whence {
+	case io.SeekCurrent:
+		off += f.pos
+	case io.SeekEnd:
+		off += int64(len(f.data))
+	}
+	if off < 0 {
+		return 0, fmt.Errorf("negative position")
+	}
+	f.pos = off
+	return off, nil
+}
+
+// c11Sequential offers Write only (a pipe, a network connection, a hash).
+type c11Sequential struct{ buf bytes.Buffer }
+
+func (s *c11Sequential) Write(p []byte) (int, error) { return s.buf.Write(p) }
+
+// how the parameters of one filter are written in the source
+const (
+	c11PNull    = iota // the entry is null
+	c11PMissing        // the entry is a reference to an object the file does not define
+	c11PRefNull        // the entry is a reference to an object whose value is null
+	c11PDirect         // the entry is a dictionary
+	c11PRef            // the entry is a reference to a dictionary
+)
+
+type c11Filt struct {
+	name  Name
+	parms Dict
+	how   int
+}
+
+// bits of c11Stm.style
+const (
+	c11FilterIndirect = 1 << iota // /Filter is a reference to the name or array
+	c11FilterElemsInd             // the elements of the /Filter array are references to names
+	c11ParmsIndirect              // /DecodeParms is a reference
+	c11Flat                       // one filter: /Filter is a name, /DecodeParms a dictionary
+	c11LengthIndirect             // /Length is a reference
+	c11OmitNullParms              // no /DecodeParms key when no filter has parameters
+	c11LengthBefore               // the length object precedes the stream in the file
+	c11CRLF                       // "stream" is followed by CR LF
+)
+
+type c11Stm struct {
+	chain   []c11Filt
+	style   int
+	payload []byte
+
+	encoded   []byte
+	ref       Reference
+	expFilter Object // nil: no /Filter entry
+	expParms  Object // nil: no /DecodeParms entry
+}
+
+// ---- encoders, written from ISO 32000 7.4 ----
+
+func c11EncHex(data []byte) []byte {
+	const digits = "0123456789abcdefABCDEF"
+	out := make([]byte, 0, 2*len(data)+1)
+	for i, b := range data {
+		hi, lo := int(b>>4), int(b&15)
+		if i%2 == 1 && hi >= 10 {
+			hi += 6 // upper-case digit
+		}
+		out = append(out, digits[hi], digits[lo])
+	}
+	return append(out, '>')
+}
+
+func c11Enc85(data []byte) []byte {
+	var out []byte
+	for i := 0; i < len(data); i += 4 {
+		n := len(data) - i
+		if n > 4 {
+			n = 4
+		}
+		var v uint32
+		for j := 0; j < 4; j++ {
+			v <<= 8
+			if j < n {
+				v |= uint32(data[i+j])
+			}
+		}
+		if n == 4 && v == 0 {
+			out = append(out, 'z')
+			continue
+		}
+		var c [5]byte
+		for j := 4; j >= 0; j-- {
+			c[j] = byte(v%85) + '!'
+			v /= 85
+		}
+		out = append(out, c[:n+1]...)
+		if len(out)%61 == 0 {
+			out = append(out, '\n') // white space is ignored
+		}
+	}
+	return append(out, '~', '>')
+}
+
+func c11EncRL(data []byte) []byte {
+	var out []byte
+	for i := 0; i < len(data); {
+		run := 1
+		for i+run < len(data) && run < 128 && data[i+run] == data[i] {
+			run++
+		}
+		if run >= 2 {
+			out = append(out, byte(257-run), data[i])
+			i += run
+			continue
+		}
+		j := i + 1
+		for j < len(data) && j-i < 128 && !(j+1 < len(data) && data[j] == data[j+1]) {
+			j++
+		}
+		out = append(out, byte(j-i-1))
+		out = append(out, data[i:j]...)
+		i = j
+	}
+	return append(out, 128)
+}
+
+func c11EncFlate(data []byte) []byte {
+	var buf bytes.Buffer
+	zw := zlib.NewWriter(&buf)
+	zw.Write(data)
+	zw.Close()
+	return buf.Bytes()
+}
+
+// c11EncLZW is LZW with /EarlyChange 0 (code lengths grow as late as possible), the
+// variant compress/lzw implements: 8-bit literals, MSB first, clear = 256, EOD = 257.
+func c11EncLZW(data []byte) []byte {
+	var buf bytes.Buffer
+	lw := lzw.NewWriter(&buf, lzw.MSB, 8)
+	lw.Write(data)
+	lw.Close()
+	return buf.Bytes()
+}
+
+// c11Predict applies the predictor of 7.4.4.4 (Colors 1, BitsPerComponent 8).
+func c11Predict(data []byte, parms Dict) []byte {
+	p, _ := parms["Predictor"].(Integer)
+	if p <= 1 {
+		return data
+	}
+	cols := int(parms["Columns"].(Integer))
+	if len(data)%cols != 0 {
+		panic("harness: payload is not a whole number of rows")
+	}
+	var out []byte
+	for r := 0; r*cols < len(data); r++ {
+		row := data[r*cols : (r+1)*cols]
+		var prev []byte
+		if r > 0 {
+			prev = data[(r-1)*cols : r*cols]
+		} else {
+			prev = make([]byte, cols)
+		}
+		if p == 2 { // TIFF: difference to the left neighbour
+			for j, b := range row {
+				if j > 0 {
+					b -= row[j-1]
+				}
+				out = append(out, b)
+			}
+			continue
+		}
+		tag := int(p) - 10
+		if p == 15 {
+			tag = r % 5 // the tag byte of each row decides
+		}
+		out = append(out, byte(tag))
+		for j, b := range row {
+			var left, up, upLeft int
+			if j > 0 {
+				left = int(row[j-1])
+				upLeft = int(prev[j-1])
+			}
+			up = int(prev[j])
+			switch tag {
+			case 1:
+				b -= byte(left)
+			case 2:
+				b -= byte(up)
+			case 3:
+				b -= byte((left + up) / 2)
+			case 4:
+				pa, pb, pc := up-upLeft, left-upLeft, left+up-2*upLeft
+				if pa < 0 {
+					pa = -pa
+				}
+				if pb < 0 {
+					pb = -pb
+				}
+				if pc < 0 {
+					pc = -pc
+				}
+				switch {
+				case pa <= pb && pa <= pc:
+					b -= byte(left)
+				case pb <= pc:
+					b -= byte(up)
+				default:
+					b -= byte(upLeft)
+				}
+			}
+			out = append(out, b)
+		}
+	}
+	return out
+}
+
+func c11Encode(chain []c11Filt, payload []byte) []byte {
+	data := payload
+	for i := len(chain) - 1; i >= 0; i-- {
+		f := chain[i]
+		switch f.name {
+		case "ASCIIHexDecode":
+			data = c11EncHex(data)
+		case "ASCII85Decode":
+			data = c11Enc85(data)
+		case "RunLengthDecode":
+			data = c11EncRL(data)
+		case "FlateDecode":
+			data = c11EncFlate(c11Predict(data, f.parms))
+		case "LZWDecode":
+			if f.parms["EarlyChange"] != Integer(0) {
+				panic("harness: only /EarlyChange 0 has an independent encoder")
+			}
+			data = c11EncLZW(c11Predict(data, f.parms))
+		default:
+			panic("harness: no encoder for " + string(f.name))
+		}
+	}
+	return data
+}
+
+// c11Text writes an object in PDF syntax (names here need no escapes).
+func c11Text(o Object) string {
+	switch x := o.(type) {
+	case nil:
+		return "null"
+	case Name:
+		return "/" + string(x)
+	case Integer:
+		return strconv.FormatInt(int64(x), 10)
+	case Boolean:
+		return strconv.FormatBool(bool(x))
+	case Reference:
+		return fmt.Sprintf("%d %d R", x.Number(), x.Generation())
+	case Array:
+		s := "["
+		for i, e := range x {
+			if i > 0 {
+				s += " "
+			}
+			s += c11Text(e)
+		}
+		return s + "]"
+	case Dict:
+		keys := make([]string, 0, len(x))
+		for k := range x {
+			keys = append(keys, string(k))
+		}
+		sort.Strings(keys)
+		s := "<<"
+		for _, k := range keys {
+			s += "/" + k + " " + c11Text(x[Name(k)])
+		}
+		return s + ">>"
+	}
+	panic(fmt.Sprintf("harness: c11Text(%T)", o))
+}
+
+// c11Sink receives the objects of a source file.
+type c11Sink interface {
+	alloc() Reference
+	missing() Reference // a reference which will resolve to null
+	put(r Reference, o Object)
+	stream(r Reference, d Dict, data []byte, style int)
+	null() Object // a null entry of a /Filter or /DecodeParms array
+	allowIndirect() bool
+}
+
+// c11Hand writes an unencrypted PDF 1.7 file with a classic cross-reference table.
+type c11Hand struct {
+	body  bytes.Buffer
+	off   map[uint32]int
+	next  uint32
+	nMiss int
+}
+
+func c11NewHand() *c11Hand {
+	h := &c11Hand{off: map[uint32]int{}, next: 1}
+	h.body.WriteString("%PDF-1.7\n%\xe2\xe3\xcf\xd3\n")
+	return h
+}
+
+func (h *c11Hand) alloc() Reference {
+	h.next++
+	return NewReference(h.next-1, 0)
+}
+
+func (h *c11Hand) missing() Reference {
+	h.nMiss++
+	if h.nMiss%2 == 0 {
+		return NewReference(900000+uint32(h.nMiss), 0) // beyond /Size
+	}
+	return h.alloc() // stays a free entry of the table
+}
+
+func (h *c11Hand) null() Object        { return nil }
+func (h *c11Hand) allowIndirect() bool { return true }
+
+func (h *c11Hand) put(r Reference, o Object) {
+	h.off[r.Number()] = h.body.Len()
+	fmt.Fprintf(&h.body, "%d 0 obj\n%s\nendobj\n", r.Number(), c11Text(o))
+}
+
+func (h *c11Hand) stream(r Reference, d Dict, data []byte, style int) {
+	d = maps.Clone(d)
+	d["Length"] = Integer(len(data))
+	var lenRef Reference
+	if style&c11LengthIndirect != 0 {
+		lenRef = h.alloc()
+		d["Length"] = lenRef
+		if style&c11LengthBefore != 0 {
+			h.put(lenRef, Integer(len(data)))
+		}
+	}
+	eol := "\n"
+	if style&c11CRLF != 0 {
+		eol = "\r\n"
+	}
+	h.off[r.Number()] = h.body.Len()
+	fmt.Fprintf(&h.body, "%d 0 obj\n%s\nstream%s", r.Number(), c11Text(d), eol)
+	h.body.Write(data)
+	h.body.WriteString(eol + "endstream\nendobj\n")
+	if style&c11LengthIndirect != 0 && style&c11LengthBefore == 0 {
+		h.put(lenRef, Integer(len(data)))
+	}
+}
+
+func (h *c11Hand) finish(catalog Reference) []byte {
+	xref := h.body.Len()
+	fmt.Fprintf(&h.body, "xref\n0 %d\n0000000000 65535 f \n", h.next)
+	for n := uint32(1); n < h.next; n++ {
+		if off, ok := h.off[n]; ok {
+			fmt.Fprintf(&h.body, "%010d 00000 n \n", off)
+		} else {
+			h.body.WriteString("0000000000 00001 f \n")
+		}
+	}
+	fmt.Fprintf(&h.body, "trailer\n<</Size %d/Root %s>>\nstartxref\n%d\n%%%%EOF\n", h.next, c11Text(catalog), xref)
+	return h.body.Bytes()
+}
+
+// c11Lib writes the source with the library's writer (needed for encrypted sources).  Null
+// entries of /Filter-related arrays are written as the name /XNUL and become " null" in the
+// finished file, so that the source does not depend on what the writer does with them;
+// references in those entries would be inlined by the writer, so there are none.
+type c11Lib struct {
+	t     *testing.T
+	w     *Writer
+	nulls int
+}
+
+func (l *c11Lib) alloc() Reference    { return l.w.Alloc() }
+func (l *c11Lib) missing() Reference  { return l.w.Alloc() }
+func (l *c11Lib) allowIndirect() bool { return false }
+func (l *c11Lib) null() Object        { return Name("XNUL") }
+
+func (l *c11Lib) put(r Reference, o Object) {
+	if err := l.w.Put(r, o); err != nil {
+		l.t.Fatalf("harness: %v", err)
+	}
+}
+
+func (l *c11Lib) stream(r Reference, d Dict, data []byte, style int) {
+	if dp, ok := d["DecodeParms"].(Array); ok {
+		for _, e := range dp {
+			if e == Name("XNUL") {
+				l.nulls++
+			}
+		}
+	}
+	sw, err := l.w.OpenStream(r, d)
+	if err == nil {
+		_, err = sw.Write(data)
+	}
+	if err == nil {
+		err = sw.Close()
+	}
+	if err != nil {
+		l.t.Fatalf("harness: %v", err)
+	}
+}
+
+// c11BuildStreams writes the cases into the sink and records, for each, what its /Filter
+// and /DecodeParms entries must resolve to.  Stream 2k and 2k+1 refer to each other from
+// their dictionaries (a cycle through stream dictionaries).
+func c11BuildStreams(sink c11Sink, cases []*c11Stm) {
+	for _, c := range cases {
+		c.ref = sink.alloc()
+	}
+	for i, c := range cases {
+		style := c.style
+		if !sink.allowIndirect() {
+			style &^= c11FilterIndirect | c11FilterElemsInd | c11ParmsIndirect
+		}
+		if len(c.chain) != 1 {
+			style &^= c11Flat
+		}
+		d := Dict{"Idx": Integer(i), "Kind": Name("Quir:C11")}
+		if j := i ^ 1; j < len(cases) {
+			d["Buddy"] = cases[j].ref
+		}
+		c.expFilter, c.expParms = nil, nil
+		if len(c.chain) > 0 {
+			names, expNames := Array{}, Array{}
+			parms, expParms := Array{}, Array{}
+			allNull := true
+			for _, f := range c.chain {
+				how := f.how
+				if !sink.allowIndirect() {
+					how = map[int]int{c11PNull: c11PNull, c11PMissing: c11PNull, c11PRefNull: c11PNull, c11PDirect: c11PDirect, c11PRef: c11PDirect}[how]
+				}
+				expNames = append(expNames, f.name)
+				if style&c11FilterElemsInd != 0 && style&c11Flat == 0 {
+					r := sink.alloc()
+					sink.put(r, f.name)
+					names = append(names, r)
+				} else {
+					names = append(names, f.name)
+				}
+				if how != c11PNull {
+					allNull = false
+				}
+				switch how {
+				case c11PNull:
+					parms, expParms = append(parms, sink.null()), append(expParms, nil)
+				case c11PMissing:
+					parms, expParms = append(parms, sink.missing()), append(expParms, nil)
+				case c11PRefNull:
+					r := sink.alloc()
+					sink.put(r, nil)
+					parms, expParms = append(parms, r), append(expParms, nil)
+				case c11PDirect:
+					parms, expParms = append(parms, f.parms), append(expParms, f.parms)
+				case c11PRef:
+					r := sink.alloc()
+					sink.put(r, f.parms)
+					parms, expParms = append(parms, r), append(expParms, f.parms)
+				}
+			}
+			var filter, dp Object = names, parms
+			c.expFilter, c.expParms = expNames, expParms
+			omit := allNull && style&c11OmitNullParms != 0
+			if style&c11Flat != 0 {
+				filter, c.expFilter = c.chain[0].name, c.chain[0].name
+				dp, c.expParms = parms[0], expParms[0]
+				omit = allNull // "/DecodeParms null" is the same as no entry
+			}
+			if style&c11FilterIndirect != 0 {
+				r := sink.alloc()
+				sink.put(r, filter)
+				filter = r
+			}
+			d["Filter"] = filter
+			if omit {
+				c.expParms = nil
+			} else {
+				if style&c11ParmsIndirect != 0 {
+					r := sink.alloc()
+					sink.put(r, dp)
+					dp = r
+				}
+				d["DecodeParms"] = dp
+			}
+		}
+		c.encoded = c11Encode(c.chain, c.payload)
+		sink.stream(c.ref, d, c.encoded, style)
+	}
+}
+
+// c11Same compares two objects built from null, names, integers, arrays and dictionaries.
+func c11Same(a, b Object) bool {
+	switch x := a.(type) {
+	case nil:
+		return b == nil
+	case Array:
+		y, ok := b.(Array)
+		if !ok || len(x) != len(y) {
+			return false
+		}
+		for i := range x {
+			if !c11Same(x[i], y[i]) {
+				return false
+			}
+		}
+		return true
+	case Dict:
+		y, ok := b.(Dict)
+		if !ok || len(x) != len(y) {
+			return false
+		}
+		for k, v := range x {
+			w, ok := y[k]
+			if !ok || !c11Same(v, w) {
+				return false
+			}
+		}
+		return true
+	case Name:
+		y, ok := b.(Name)
+		return ok && x == y
+	case Integer:
+		y, ok := b.(Integer)
+		return ok && x == y
+	}
+	return false
+}
+
+// c11Resolved follows references at the top and at the array-element level (an indirect
+// object may itself be a reference; such chains are followed).
+func c11Resolved(g Getter, v Object) Object {
+	deref := func(v Object) Object {
+		for k := 0; k < 8; k++ {
+			r, ok := v.(Reference)
+			if !ok {
+				break
+			}
+			v, _ = g.Get(r, true)
+		}
+		return v
+	}
+	v = deref(v)
+	if arr, ok := v.(Array); ok {
+		out := make(Array, len(arr))
+		for i, e := range arr {
+			out[i] = deref(e)
+		}
+		return out
+	}
+	return v
+}
+
+var c11LengthRe = regexp.MustCompile(`/Length\s+(\d+)(?:\s+(\d+)\s+R)?`)
+var c11StreamRe = regexp.MustCompile(`^\s*stream(\r\n|\n)`)
+
+// c11Extent finds the stream object in the file text and checks 7.3.8.1: /Length (direct or
+// through a reference) counts the bytes between the end-of-line after "stream" and the
+// end-of-line before "endstream".  It returns the data so delimited.  ok is false when the
+// file text cannot be interpreted without a full parser (nothing is reported then).
+func c11Extent(file []byte, ref Reference) (data []byte, problem string, ok bool) {
+	find := func(r string) int {
+		hdr := []byte("\n" + r + " obj\n")
+		if bytes.Count(file, hdr) != 1 {
+			return -1
+		}
+		return bytes.Index(file, hdr) + len(hdr)
+	}
+	p := find(fmt.Sprintf("%d %d", ref.Number(), ref.Generation()))
+	if p < 0 || !bytes.HasPrefix(file[p:], []byte("<<")) {
+		return nil, "", false
+	}
+	depth, q := 0, p
+	for q+1 < len(file) {
+		if file[q] == '<' && file[q+1] == '<' {
+			depth++
+			q += 2
+		} else if file[q] == '>' && file[q+1] == '>' {
+			depth--
+			q += 2
+			if depth == 0 {
+				break
+			}
+		} else {
+			q++
+		}
+	}
+	if depth != 0 {
+		return nil, "", false
+	}
+	m := c11LengthRe.FindSubmatch(file[p:q])
+	if m == nil {
+		return nil, "no /Length in the stream dictionary", true
+	}
+	n, _ := strconv.Atoi(string(m[1]))
+	if m[2] != nil {
+		lp := find(string(m[1]) + " " + string(m[2]))
+		if lp < 0 {
+			return nil, fmt.Sprintf("/Length %s %s R: no such object at the start of a line", m[1], m[2]), true
+		}
+		end := lp
+		for end < len(file) && file[end] >= '0' && file[end] <= '9' {
+			end++
+		}
+		var err error
+		if n, err = strconv.Atoi(string(file[lp:end])); err != nil {
+			return nil, fmt.Sprintf("/Length %s %s R is not an integer", m[1], m[2]), true
+		}
+	}
+	s := c11StreamRe.Find(file[q:])
+	if s == nil {
+		return nil, "no stream keyword after the dictionary", true
+	}
+	start := q + len(s)
+	if start+n > len(file) {
+		return nil, fmt.Sprintf("/Length %d reaches beyond the end of the file", n), true
+	}
+	rest := file[start+n:]
+	for _, eol := range []string{"\r\n", "\n", "\r", ""} {
+		if bytes.HasPrefix(rest, []byte(eol+"endstream")) {
+			return file[start : start+n], "", true
+		}
+	}
+	if len(rest) > 12 {
+		rest = rest[:12]
+	}
+	return nil, fmt.Sprintf("/Length %d: followed by %q, not endstream", n, rest), true
+}
+
+func c11Payload(rng *rand.Rand, n int) []byte {
+	out := make([]byte, n)
+	for i := 0; i < n; {
+		switch rng.Intn(3) {
+		case 0: // noise
+			for k := rng.Intn(40) + 1; k > 0 && i < n; k-- {
+				out[i] = byte(rng.Intn(256))
+				i++
+			}
+		case 1: // a run
+			b := byte(rng.Intn(256))
+			for k := rng.Intn(300) + 1; k > 0 && i < n; k-- {
+				out[i] = b
+				i++
+			}
+		default: // text, with the words a careless reader would stop at
+			for _, b := range []byte("endstream\nendobj\n8388000 0 obj\n<</Length 5>>stream\r\n") {
+				if i < n {
+					out[i] = b
+					i++
+				}
+			}
+		}
+	}
+	return out
+}
+
+func c11StreamCases(thorough bool, seed int64) []*c11Stm {
+	rng := rand.New(rand.NewSource(seed))
+	pred := func(p, cols int) Dict { return Dict{"Predictor": Integer(p), "Columns": Integer(cols)} }
+	ec0 := Dict{"EarlyChange": Integer(0)}
+	const N, M, RN, D, R = c11PNull, c11PMissing, c11PRefNull, c11PDirect, c11PRef
+	// a predictor in front of another filter sees data of any length, so it has one column
+	chains := [][]c11Filt{
+		{{"FlateDecode", nil, N}},
+		{{"FlateDecode", pred(12, 4), D}},
+		{{"FlateDecode", pred(15, 10), R}},
+		{{"LZWDecode", ec0, R}},
+		{{"ASCIIHexDecode", nil, N}},
+		{{"RunLengthDecode", nil, RN}},
+		{{"ASCIIHexDecode", nil, N}, {"FlateDecode", pred(12, 4), D}},
+		{{"ASCIIHexDecode", nil, M}, {"FlateDecode", pred(2, 5), R}},
+		{{"ASCII85Decode", Dict{}, D}, {"LZWDecode", ec0, D}},
+		{{"FlateDecode", pred(12, 1), D}, {"ASCIIHexDecode", nil, N}},
+		{{"FlateDecode", pred(14, 1), R}, {"RunLengthDecode", nil, M}},
+		{{"ASCIIHexDecode", nil, RN}, {"RunLengthDecode", nil, M}},
+		{{"ASCII85Decode", nil, N}, {"RunLengthDecode", nil, N}},
+		{{"FlateDecode", pred(12, 1), D}, {"FlateDecode", pred(2, 4), D}},
+		{{"FlateDecode", Dict{}, D}, {"LZWDecode", pred(14, 5), D}},
+		{{"RunLengthDecode", nil, N}, {"LZWDecode", ec0, R}, {"FlateDecode", nil, RN}},
+		{{"ASCII85Decode", nil, N}, {"RunLengthDecode", nil, N}, {"FlateDecode", pred(15, 10), D}},
+		{{"ASCII85Decode", nil, M}, {"FlateDecode", pred(13, 1), D}, {"RunLengthDecode", nil, N}},
+		{{"ASCIIHexDecode", nil, N}, {"ASCII85Decode", nil, RN}, {"LZWDecode", ec0, D}, {"FlateDecode", pred(12, 10), R}},
+	}
+	// the LZW filter of chain 14 needs /EarlyChange 0 as well
+	chains[14][1].parms["EarlyChange"] = Integer(0)
+	sizes := []int{40, 700, 5000}
+	rounds := 1
+	if thorough {
+		sizes = []int{0, 20, 40, 700, 1020, 5000, 40000}
+		rounds = 4
+	}
+	var cases []*c11Stm
+	for round := 0; round < rounds; round++ {
+		for _, chain := range chains {
+			for _, n := range sizes {
+				cases = append(cases, &c11Stm{chain: chain, style: rng.Intn(256), payload: c11Payload(rng, n)})
+			}
+		}
+	}
+	// stored sizes around the writer's look-ahead (1024 bytes), the cipher block (16 bytes;
+	// AES adds an initialisation vector and 1 to 16 bytes of padding) and the copy buffer
+	raw := []int{0, 1, 15, 16, 17, 975, 976, 991, 992, 1007, 1008, 1022, 1023, 1024, 1025, 1039, 1040, 2048, 3000, 32767, 32768, 32769, 70000}
+	hex := []int{487, 488, 495, 496, 503, 504, 511, 512}
+	if thorough {
+		raw = raw[:0]
+		for n := 0; n <= 40; n++ {
+			raw = append(raw, n)
+		}
+		for n := 940; n <= 1100; n++ {
+			raw = append(raw, n)
+		}
+		raw = append(raw, 2047, 2048, 2049, 4095, 4096, 4097, 32767, 32768, 32769, 32784, 65535, 65536, 65537, 70000, 1<<20+3)
+		hex = hex[:0]
+		for n := 470; n <= 530; n++ {
+			hex = append(hex, n)
+		}
+	}
+	for _, n := range raw {
+		cases = append(cases, &c11Stm{style: rng.Intn(256), payload: c11Payload(rng, n)})
+	}
+	for _, n := range hex {
+		cases = append(cases, &c11Stm{chain: chains[4], style: rng.Intn(256), payload: c11Payload(rng, n)})
+	}
+	return cases
+}
+
+func TestB2C11Streams(t *testing.T) {
+	thorough, seed := c11Env()
+	cases := c11StreamCases(thorough, seed)
+	type enc struct {
+		v   Version
+		pwd string
+	}
+	encs := []enc{{V1_7, ""}, {V1_4, "secret"}, {V1_6, "aes128"}, {V2_0, "other"}}
+	n, fails, extents := 0, 0, 0
+	fail := func(kind, format string, a ...any) {
+		fails++
+		if fails <= 25 {
+			t.Errorf("B2-FAIL %s %s", kind, fmt.Sprintf(format, a...))
+		}
+	}
+	// source 0 is written by hand; the others by the library's writer
+	for si := 0; si <= len(encs); si++ {
+		var data []byte
+		var ro *ReaderOptions
+		sdesc := "src=hand"
+		if si == 0 {
+			h := c11NewHand()
+			cat, pages := h.alloc(), h.alloc()
+			h.put(cat, Dict{"Type": Name("Catalog"), "Pages": pages})
+			h.put(pages, Dict{"Type": Name("Pages"), "Kids": Array{}, "Count": Integer(0)})
+			c11BuildStreams(h, cases)
+			data = h.finish(cat)
+		} else {
+			se := encs[si-1]
+			sdesc = fmt.Sprintf("src=%v/%q", se.v, se.pwd)
+			f := &c11MemFile{}
+			w, err := NewWriter(f, se.v, &WriterOptions{UserPassword: se.pwd, OwnerPassword: se.pwd})
+			if err != nil {
+				t.Fatalf("harness: %v", err)
+			}
+			pages := w.Alloc()
+			w.GetMeta().Catalog.Pages = pages
+			w.Put(pages, Dict{"Type": Name("Pages"), "Kids": Array{}, "Count": Integer(0)})
+			l := &c11Lib{t: t, w: w}
+			c11BuildStreams(l, cases)
+			if err := w.Close(); err != nil {
+				t.Fatalf("harness: %v", err)
+			}
+			if bytes.Count(f.data, []byte("/XNUL")) != l.nulls {
+				t.Errorf("B2-FAIL harness %s: cannot patch the null entries", sdesc)
+				continue
+			}
+			data = bytes.ReplaceAll(f.data, []byte("/XNUL"), []byte(" null"))
+			if se.pwd != "" {
+				ro = &ReaderOptions{Password: se.pwd}
+			}
+		}
+		src, err := NewReader(bytes.NewReader(data), int64(len(data)), ro)
+		if err != nil {
+			fail("source-open", "%s: %v", sdesc, err)
+			continue
+		}
+		// the source must say what the harness meant (otherwise the case tests nothing)
+		srcOK := make([]bool, len(cases))
+		for i, c := range cases {
+			got, err := c11ReadStream(src, c.ref)
+			if err != nil || !bytes.Equal(got, c.payload) {
+				fail("source-decode", "%s stream %d %s: %d bytes, want %d (%v)", sdesc, i, c11ChainText(c), len(got), len(c.payload), err)
+				continue
+			}
+			srcOK[i] = true
+		}
+		for di, de := range encs {
+			for seekable := 0; seekable < 2; seekable++ {
+				desc := fmt.Sprintf("%s dst=%v/%q seekable=%d", sdesc, de.v, de.pwd, seekable)
+				mode := (si + 2*di + seekable) % 4
+				mem, seq := &c11MemFile{}, &c11Sequential{}
+				var out io.Writer = seq
+				if seekable == 1 {
+					out = mem
+				}
+				w, err := NewWriter(out, de.v, &WriterOptions{UserPassword: de.pwd, OwnerPassword: de.pwd})
+				if err != nil {
+					fail("target", "%s: %v", desc, err)
+					continue
+				}
+				pages := w.Alloc()
+				w.GetMeta().Catalog.Pages = pages
+				w.Put(pages, Dict{"Type": Name("Pages"), "Kids": Array{}, "Count": Integer(0)})
+				cp := NewCopier(w, src)
+				dstRefs := make([]Reference, len(cases))
+				second := map[int]Reference{} // streams copied a second time as direct objects
+				var cerr error
+				func() {
+					defer func() {
+						if r := recover(); r != nil {
+							cerr = fmt.Errorf("panic: %v", r)
+						}
+					}()
+					switch mode {
+					case 0: // one CopyReference per stream
+						for i, c := range cases {
+							if dstRefs[i], cerr = cp.CopyReference(c.ref); cerr != nil {
+								return
+							}
+						}
+					case 1: // one Copy of an array of references
+						arr := make(Array, len(cases))
+						for i, c := range cases {
+							arr[i] = c.ref
+						}
+						var res Native
+						if res, cerr = cp.Copy(arr); cerr != nil {
+							return
+						}
+						ra, _ := res.(Array)
+						if len(ra) != len(cases) {
+							cerr = fmt.Errorf("Copy(array of %d) gives %d elements", len(cases), len(ra))
+							return
+						}
+						for i := range ra {
+							dstRefs[i], _ = ra[i].(Reference)
+						}
+					case 2: // in reverse, through Copy
+						for i := len(cases) - 1; i >= 0; i-- {
+							var res Native
+							if res, cerr = cp.Copy(cases[i].ref); cerr != nil {
+								return
+							}
+							dstRefs[i], _ = res.(Reference)
+						}
+					case 3: // every third stream is first copied as a direct object and written by the caller
+						for i, c := range cases {
+							if i%3 == 0 {
+								obj, err := src.Get(c.ref, true)
+								if err != nil {
+									cerr = err
+									return
+								}
+								res, err := cp.Copy(obj)
+								if err != nil {
+									cerr = err
+									return
+								}
+								if _, isStream := res.(*Stream); !isStream {
+									cerr = fmt.Errorf("Copy(stream) gives %T", res)
+									return
+								}
+								r := w.Alloc()
+								if cerr = w.Put(r, res); cerr != nil {
+									return
+								}
+								second[i] = r
+							}
+							if dstRefs[i], cerr = cp.CopyReference(c.ref); cerr != nil {
+								return
+							}
+						}
+					}
+					for i, c := range cases {
+						if again, err := cp.CopyReference(c.ref); err != nil || again != dstRefs[i] {
+							cerr = fmt.Errorf("stream %d: second CopyReference gives %v, first %v (%v)", i, again, dstRefs[i], err)
+							return
+						}
+					}
+				}()
+				if cerr != nil {
+					fail("copy", "%s mode %d: %v", desc, mode, cerr)
+					continue
+				}
+				if err := w.Close(); err != nil {
+					fail("close", "%s: %v", desc, err)
+					continue
+				}
+				file := seq.buf.Bytes()
+				if seekable == 1 {
+					file = mem.data
+				}
+				var do *ReaderOptions
+				if de.pwd != "" {
+					do = &ReaderOptions{Password: de.pwd}
+				}
+				dst, err := NewReader(bytes.NewReader(file), int64(len(file)), do)
+				if err != nil {
+					fail("target-open", "%s: %v", desc, err)
+					continue
+				}
+				check := func(i int, r Reference, what string) {
+					c := cases[i]
+					n++
+					cd := fmt.Sprintf("%s %s %d (%d bytes, %d stored) %s", desc, what, i, len(c.payload), len(c.encoded), c11ChainText(c))
+					obj, err := dst.Get(r, true)
+					stm, isStream := obj.(*Stream)
+					if err != nil || !isStream {
+						fail("stream", "%s: copy is %T (%v)", cd, obj, err)
+						return
+					}
+					got, err := c11ReadStream(dst, r)
+					if err != nil || !bytes.Equal(got, c.payload) {
+						fail("stream-data", "%s: decodes to %d bytes, differs at %d (%v)", cd, len(got), c11FirstDiff(got, c.payload), err)
+					}
+					for _, e := range []struct {
+						key Name
+						exp Object
+					}{{"Filter", c.expFilter}, {"DecodeParms", c.expParms}} {
+						have := c11Resolved(dst, stm.Dict[e.key])
+						if !c11Same(e.exp, have) {
+							fail("filter-entries", "%s: /%s resolves to %s, want %s", cd, e.key, c11Show(have), c11Show(e.exp))
+						}
+					}
+					if v := stm.Dict["Idx"]; v != Integer(i) {
+						fail("scalar", "%s: /Idx became %v", cd, v)
+					}
+					stored, problem, ok := c11Extent(file, r)
+					if ok {
+						extents++
+					}
+					if ok && problem != "" {
+						fail("length", "%s: %s", cd, problem)
+					} else if ok && de.pwd == "" && len(c.chain) == 0 && !bytes.Equal(stored, c.payload) {
+						fail("stored-data", "%s: the %d bytes delimited by /Length differ from the data at %d", cd, len(stored), c11FirstDiff(stored, c.payload))
+					}
+				}
+				for i := range cases {
+					if !srcOK[i] {
+						continue
+					}
+					check(i, dstRefs[i], "stream")
+					if r, ok := second[i]; ok {
+						check(i, r, "direct-stream")
+					}
+				}
+				sa, da := make(Array, len(cases)), make(Array, len(cases))
+				for i, c := range cases {
+					sa[i], da[i] = c.ref, dstRefs[i]
+				}
+				iso := &c11Iso{t: t, src: src, dst: dst, fwd: map[Reference]Reference{}, bwd: map[Reference]Reference{}, desc: desc, quiet: 6}
+				iso.cmp("streams", sa, da, 0)
+			}
+		}
+	}
+	if fails > 25 {
+		t.Errorf("B2-FAIL more %d further failures not shown", fails-25)
+	}
+	if extents < n*9/10 {
+		t.Errorf("B2-FAIL harness the extent of only %d of %d copied streams could be checked in the file text", extents, n)
+	}
+	t.Logf("B2-CASES %d", n)
+}
+
+func c11ReadStream(g Getter, r Reference) ([]byte, error) {
+	obj, err := g.Get(r, true)
+	if err != nil {
+		return nil, err
+	}
+	stm, ok := obj.(*Stream)
+	if !ok {
+		return nil, fmt.Errorf("%T, not a stream", obj)
+	}
+	rd, err := DecodeStream(g, nil, stm)
+	if err != nil {
+		return nil, err
+	}
+	defer rd.Close()
+	return io.ReadAll(rd)
+}
+
+func c11FirstDiff(a, b []byte) int {
+	for i := 0; i < len(a) && i < len(b); i++ {
+		if a[i] != b[i] {
+			return i
+		}
+	}
+	if len(a) < len(b) {
+		return len(a)
+	}
+	return len(b)
+}
+
+func c11Show(o Object) string {
+	if o == nil {
+		return "(none)"
+	}
+	defer func() { recover() }()
+	s := c11Text(o)
+	if len(s) > 90 {
+		s = s[:90] + "..."
+	}
+	return s
+}
+
+func c11ChainText(c *c11Stm) string {
+	s := "["
+	for i, f := range c.chain {
+		if i > 0 {
+			s += " "
+		}
+		s += string(f.name[:len(f.name)-6]) + ":" + "nmrDR"[f.how:f.how+1]
+	}
+	return fmt.Sprintf("%s] style %#x", s, c.style)
 }
